@@ -271,6 +271,155 @@ impl Observer for C15Obs<'_> {
     }
 }
 
+/// C07 "across restarts", crash flavour: process-crash / inside-write images taken around chunk-file
+/// creations of a finished scheduled run are recovered under the same tiny cache limits; after the
+/// recovery, after draining the evictable entries and after each of three further appends every live
+/// entry must be readable. Only histories without the D7 pattern are used, so nothing is exempt.
+pub fn reads_after_crash_restart(case: &SchedCase, rr: &sched::RunRec, r: &mut Rng, out: &mut crate::frame::ShardOut) {
+    use crate::props::crash::{ImageDir, images_at};
+    use crate::shadow::Shadow;
+    use crate::trace::Ek;
+    use std::collections::HashMap;
+    let t = &rr.trace;
+    let mut by_digest: HashMap<u64, Vec<usize>> = HashMap::new();
+    for (p, m) in rr.models.iter().enumerate() {
+        by_digest.entry(m.digest()).or_default().push(p);
+    }
+    let idir = ImageDir::new("c07crash");
+    let mut sh = Shadow::new();
+    let mut seen: std::collections::HashSet<u64> = Default::default();
+    let mut cfg = rr.final_cfg.clone();
+    cfg.truncate = None;
+    if cfg.read_buf.is_none() {
+        cfg.read_buf = Some(4096);
+    }
+    let mut budget = 24;
+    for k in 0..t.evs.len() {
+        sh.apply(t, &t.evs[k].k);
+        // interesting points: a chunk file has just been created (empty newest chunk), or its head is about to be written
+        let created = matches!(t.evs[k].k, Ek::Create { .. });
+        if !(created || r.chance(1, 40)) || budget == 0 {
+            continue;
+        }
+        let next_write = match t.evs.get(k + 1).map(|e| &e.k) {
+            Some(Ek::Write { path, off, data, res }) if *res > 0 => sh.cid(t, *path).map(|c| (c, *off, data[..*res as usize].to_vec())),
+            _ => None,
+        };
+        let nw = next_write.as_ref().map(|(c, o, d)| (*c, *o, d.as_slice()));
+        for (fam, img) in images_at(&sh, nw, r, false) {
+            if !(fam == "process_crash" || fam == "inside_write") || budget == 0 {
+                continue;
+            }
+            if !seen.insert(crate::shadow::image_hash(&img)) {
+                continue;
+            }
+            budget -= 1;
+            idir.install(&img);
+            let Ok(mut st) = Store::open(&idir.dir, &cfg, 90) else { continue };
+            let state = st.state();
+            out.count("crash_restart_images_recovered_under_tiny_cache", 1);
+            // which prefix was recovered? (membership is C03's subject; here it only selects the model)
+            let rl_entries_digest = |st: &Store| -> Option<u64> {
+                match st.read_all() {
+                    Outcome2::Ok(v) => Some(crate::model::digest_of(&st.state(), v.iter().map(|(id, p)| (*id, p.as_str())))),
+                    _ => None,
+                }
+            };
+            let mk = |sig: &str, text: String| Viol { prop: "C07".into(), sig: format!("C07:{}", sig), text: format!("crash after event {} ({}), image family {}: {}", k, t.evs[k].k.short(), fam, text), replay: json!({"kind": "c07", "case": case.to_json(), "crash_after_event": k}) };
+            let first = rl_entries_digest(&st);
+            let model = match first.and_then(|d| by_digest.get(&d)).and_then(|v| v.last()) {
+                Some(p) => rr.models[*p].clone(),
+                None => {
+                    if first.is_none() {
+                        let e = match st.read_all() {
+                            Outcome2::Err(e) => e,
+                            Outcome2::Panic(p) => p,
+                            _ => String::new(),
+                        };
+                        out.viol(mk("read_error_after_crash_restart:first_read", format!("store recovered (state {:?}) but reading its entries failed: {}", state, e)));
+                    }
+                    st.close();
+                    continue;
+                }
+            };
+            let mut m = model;
+            let mut fail = None;
+            let check = |st: &Store, m: &Model, whenx: &str| -> Option<(String, String)> {
+                for (how, res) in [("read(0,MAX)", st.read_all()), ("dump_data().iter()", st.iter_all())] {
+                    match res {
+                        Outcome2::Ok(v) if v == m.entries() => {}
+                        Outcome2::Ok(v) => return Some(("read_wrong_after_crash_restart".into(), format!("{} {}: {}", how, whenx, seq::diff_entries(&v, &m.entries())))),
+                        Outcome2::Err(e) => {
+                            if std::env::var("RLMON_DEBUG").is_ok() {
+                                eprintln!("DEBUG-AT-FAILURE {} {}: {}", how, whenx, e);
+                                eprintln!("DEBUG-AT-FAILURE seq {:?} resident {:?}", st.seq(), st.rl().verif_cache_resident());
+                                eprintln!("DEBUG-AT-FAILURE stat {}", st.rl().stat());
+                                eprintln!("DEBUG-AT-FAILURE files {:?}", crate::store::list_chunks(&st.dir).iter().map(|(c, p)| (*c, std::fs::metadata(p).map(|m| m.len()).unwrap_or(0))).collect::<Vec<_>>());
+                                for (ix, (id, _)) in m.log.iter() {
+                                    if let Outcome2::Err(e) = st.read(*ix, ix + 1) {
+                                        eprintln!("DEBUG-AT-FAILURE unreadable {:?}: {}", id, e);
+                                    }
+                                }
+                            }
+                            return Some(("read_error_after_crash_restart".into(), format!("{} {} failed: {}", how, whenx, e)));
+                        }
+                        Outcome2::Panic(p) => return Some(("read_panic_after_crash_restart".into(), format!("{} {} panicked: {}", how, whenx, p))),
+                    }
+                }
+                None
+            };
+            st.rl().drain_cache_evictable();
+            fail = fail.or(check(&st, &m, "after recovery + drain"));
+            // a term above every term the history ever used: the new ids are above every removed id,
+            // so the D7 pattern (re-append at or below a removed id) cannot arise here
+            let top_term = rr.recs.iter().filter_map(|r| if let crate::model::Rec::Append(id, _) = r { Some(id.0) } else { None }).max().unwrap_or(0) + 1;
+            let mut next = match m.st.last {
+                Some(l) => (top_term.max(l.0 + 1), l.1 + 1),
+                None => (top_term, 0),
+            };
+            for i in 0..3 {
+                if fail.is_some() {
+                    break;
+                }
+                let op = Op::Append(vec![(next, format!("after-crash-{}-{}", k, i))]);
+                let wo = st.write(&op);
+                if std::env::var("RLMON_DEBUG").is_ok() {
+                    eprintln!("DEBUG append {:?} -> {:?}; state now {:?}; resident {:?}", next, wo, st.state(), st.rl().verif_cache_resident());
+                }
+                if !wo.is_ok() {
+                    break;
+                }
+                crate::genr::Gen::apply_to_model(&mut m, &op);
+                next = (next.0, next.1 + 1);
+                fail = fail.or(check(&st, &m, "after an append following recovery"));
+                st.rl().drain_cache_evictable();
+                fail = fail.or(check(&st, &m, "after an append + drain following recovery"));
+                out.count("reads_after_crash_restart", 4);
+            }
+            if fail.is_some() && std::env::var("RLMON_DEBUG").is_ok() {
+                let stt = st.rl().stat();
+                eprintln!("DEBUG image {:?}", img.iter().map(|(c, b)| (*c, b.len(), crate::refcodec::parse_file(b).recs.len())).collect::<Vec<_>>());
+                eprintln!("DEBUG cfg {:?}", cfg);
+                eprintln!("DEBUG stat {}", stt);
+                eprintln!("DEBUG resident {:?}", st.rl().verif_cache_resident());
+                eprintln!("DEBUG model {:?} entries {:?}", m.st, m.log.values().map(|e| e.0).collect::<Vec<_>>());
+                for (ix, (id, _)) in m.log.iter() {
+                    if let Outcome2::Err(e) = st.read(*ix, ix + 1) {
+                        eprintln!("DEBUG unreadable {:?}: {}", id, e);
+                    }
+                }
+                eprintln!("DEBUG seq {:?}", st.seq());
+                eprintln!("DEBUG files now {:?}", crate::store::list_chunks(&idir.dir).iter().map(|(c, p)| (*c, std::fs::metadata(p).map(|m| m.len()).unwrap_or(0))).collect::<Vec<_>>());
+            }
+            let _ = st.wait_idle(5_000);
+            st.close();
+            if let Some((sig, text)) = fail {
+                out.viol(mk(&sig, text));
+            }
+        }
+    }
+}
+
 pub fn final_drain_check(case: &SchedCase, dir: &str, cfg: &crate::store::CfgSpec) -> Result<u64, Viol> {
     // reopen the directory (free-running worker), wait idle, drain, and check the last clause
     let mut st = match Store::open(dir, cfg, 80) {
@@ -333,6 +482,10 @@ pub fn run_shard(ctx: &mut Ctx) {
                     if h == 1 {
                         ctx.out.sample(json!({"config": case.hist.cfg.to_json(), "ops": crate::genr::steps_brief(&case.hist.steps), "schedule": case.sched, "reader_steps": case.reader_steps, "read_points": obs.points}));
                     }
+                    // restart after a crash under the same tiny limits (histories without the D7 pattern only)
+                    if obs.max_removed.is_none() || !case.hist.tags.iter().any(|t| t == "lower_term_reappend" || t == "first_index_nonzero") {
+                        reads_after_crash_restart(&case, &rr, &mut r, &mut ctx.out);
+                    }
                 }
                 Err(RunErr::Viol(v)) => ctx.out.viol(v),
                 Err(RunErr::Inconclusive(s)) => ctx.out.inconclusive.push(s),
@@ -375,7 +528,18 @@ pub fn replay(vj: &serde_json::Value, is07: bool) -> Option<Viol> {
     let dir = util::fresh_dir("cache");
     let res = if is07 {
         let mut obs = C07Obs::new(&case, 1);
-        sched::run(&case, &mut obs, &dir).map(|_| ())
+        match sched::run(&case, &mut obs, &dir) {
+            Ok(rr) => {
+                let mut out = crate::frame::ShardOut::default();
+                for seed in 1..6 {
+                    let mut r = Rng::new(seed);
+                    reads_after_crash_restart(&case, &rr, &mut r, &mut out);
+                }
+                util::remove_dir(&dir);
+                return out.viols.into_iter().next();
+            }
+            Err(e) => Err(e),
+        }
     } else {
         let mut obs = C15Obs::new(&case);
         sched::run(&case, &mut obs, &dir).map(|_| ())
